@@ -275,7 +275,6 @@ def judge_access(lay, handler, rootnode, text, stats=None):
         except cdecl.SkipAccess:
             if stats is not None:
                 stats["returned accesses through an anonymous member, padding or function designator (not judged)"] += 1
-            found = True
             continue
         except cdecl.EvalError as ex:
             tr2 = []
@@ -299,8 +298,9 @@ def judge_access(lay, handler, rootnode, text, stats=None):
             return ("expr_to_c:type", "%s -> %s -> %s with type %s, C type is %s" % (text, es, c2, t2, describe(v2)))
         if cdecl.type_equal(lay, cdecl.value_type(lay, v2), vt):
             found = True
-        elif vt[0] == "ptr":
-            # the address of a leading member may come back as the enclosing object it is the start of
+        elif vt[0] == "ptr" and not (v.kind == "lv" and v.node["T"][0] == "ptr"):
+            # the address of a leading member may come back as the enclosing object it is the start of (does not
+            # apply to the content of a pointer member)
             pn2 = pointee_node(lay, v2)
             if pn2 is not None and any(cdecl.type_equal(lay, n["T"], pn2["T"]) for n in v.enclosing_nodes()):
                 enclosing = True
